@@ -1,5 +1,5 @@
 /-
-  Rngs.Cert.PoolCheck — kernel evaluation (`decide +kernel`, no `native_decide`) of the three
+  Rngs.Cert.PoolCheck — kernel evaluation (`decide +kernel`) of the three
   closed certificates: the literal matrices of `Rngs.Cert.PoolInverse` are two-sided inverses,
   on the 64 one-bit vectors, of the three GF(2)-linear maps of the JitterRng pool update.
   (128 evaluations of the 64-round function plus 128 matrix–vector products per certificate.)
